@@ -302,7 +302,9 @@ def run(ck):
     ck.gen()
     built = ck.coq_make(MODEL + PROOFS, clean=ck.thorough)
     ck.obligations = ck.count_statements(STATEMENT_FILES)
-    proofs_ok = all(built.get(x) for x in PROOFS)
+    # a stale .vo of an earlier run must not count: any compile error in the cone spoils the proofs
+    proofs_ok = all(built.get(x) for x in PROOFS) and not any(
+        b.get("what") in ("proof obligation no longer checks", "coq build failed") for b in ck.broken)
     if proofs_ok and ck.audit("theories/Props/C06.v"):
         ck.discharged = list(ck.obligations)
     if ck.thorough and proofs_ok:
@@ -413,7 +415,7 @@ def run(ck):
             seen.add(r["i"])
             ck.broken.append({"what": "correspondence: recorded history rejected by the Coq checker",
                               "stream": r["stream"], "backend": r["backend"], "run": r["i"]})
-            if not impl_oracle(r):
+            if not impl_oracle(r) and proofs_ok:
                 ck.violation("corr:%s:%s" % (r["stream"], r["backend"]),
                              "the recorded history is not accepted by the Coq decision procedure "
                              "(no sequential order of the successful calls explains it)",
